@@ -17,10 +17,10 @@ Definition proj_ev0 (ct : ctx_table) (m : mask) (e : ev) : list ev :=
 (* events of the attribute loop of a method (kc = what visit_code() of this method answers) or of a class *)
 Definition proj_ev (T : reader_tables) (v : visitor) (ct : ctx_table) (m : mask) (kc : option mask) (e : ev) : list ev :=
   match e with
-  | ECode attr ms ml fs es =>
+  | ECode attr ms ml fs xr es =>
       if keep_ct ct m attr then
         [match kc with
-         | Some cm => ECode attr ms ml (filter (keep_ct (rt_code T) cm) fs) (flat_map (proj_ev0 (rt_code T) cm) es)
+         | Some cm => ECode attr ms ml (filter (keep_ct (rt_code T) cm) fs) xr (flat_map (proj_ev0 (rt_code T) cm) es)
          | None => ECodeDeclined attr
          end]
       else []
@@ -209,7 +209,7 @@ Qed.
 
 (* what is visited after the loop *)
 Lemma slot_sources_R ct m pe st_m st_f slot : R ct m pe st_m st_f ->
-  slot_sources st_m slot = filter (fun x => keep_ct ct m (fst x)) (slot_sources st_f slot).
+  slot_sources ct st_m slot = filter (fun x => keep_ct ct m (fst x)) (slot_sources ct st_f slot).
 Proof.
   intros [_ _ _ Hsl]. unfold slot_sources. rewrite Hsl.
   rewrite <- filter_rev', filter_comm, filter_map_comm. reflexivity.
@@ -228,7 +228,7 @@ Proof.
   intros Hal HR. unfold deferred_events. induction (t_deferred ct) as [|slot l IH]; [reflexivity|].
   cbn [flat_map]. rewrite flat_map_app, <- IH. f_equal.
   rewrite (slot_sources_R ct m pe st_m st_f slot HR).
-  destruct (slot_sources st_f slot) as [|x srcs] eqn:E; [reflexivity|].
+  destruct (slot_sources ct st_f slot) as [|x srcs] eqn:E; [reflexivity|].
   cbn [flat_map]. rewrite app_nil_r, (al_def _ _ _ Hal). reflexivity.
 Qed.
 
@@ -243,10 +243,10 @@ Proof.
 Qed.
 
 (* ---------- Code and record components ---------- *)
-Lemma spec_code_proj T p cm attr ms ml attrs : tok T ->
-  [spec_code p T cm attr ms ml attrs]
+Lemma spec_code_proj T p cm attr ms ml xr attrs : tok T ->
+  [spec_code p T cm attr ms ml xr attrs]
   = proj_ev T (v_full T) (rt_method T) (t_interests (rt_method T)) (Some cm)
-      (spec_code p T (t_interests (rt_code T)) attr ms ml attrs)
+      (spec_code p T (t_interests (rt_code T)) attr ms ml xr attrs)
   \/ keep_ct (rt_method T) (t_interests (rt_method T)) attr = false.
 Proof.
   intros HT. left. unfold spec_code. cbn [proj_ev].
@@ -255,10 +255,10 @@ Proof.
   rewrite (frame_sources_R _ _ _ _ _ HR), (loop_events_R _ _ _ _ _ (proj_ev0_like _ _) HR). reflexivity.
 Qed.
 
-Lemma spec_code_R T p cm attr ms ml attrs : tok T ->
-  spec_code p T cm attr ms ml attrs
+Lemma spec_code_R T p cm attr ms ml xr attrs : tok T ->
+  spec_code p T cm attr ms ml xr attrs
   = (let st := spec_plains p (rt_code T) (t_interests (rt_code T)) attrs l_init in
-     ECode attr ms ml (filter (keep_ct (rt_code T) cm) (frame_sources st)) (flat_map (proj_ev0 (rt_code T) cm) (loop_events (rt_code T) st))).
+     ECode attr ms ml (filter (keep_ct (rt_code T) cm) (frame_sources st)) xr (flat_map (proj_ev0 (rt_code T) cm) (loop_events (rt_code T) st))).
 Proof.
   intros HT. unfold spec_code.
   pose proof (plains_R (rt_code T) [] cm (proj_ev0 (rt_code T) cm) p attrs (tk_code T HT) (proj_ev0_like _ _) l_init l_init (R_init _ _ _)) as HR.
@@ -334,16 +334,16 @@ Proof.
          rewrite Ek, Hev; reflexivity. }
     destruct (keep_ct ct m name) eqn:Ek; constructor; cbn [l_emit l_events l_dep l_syn l_slots flat_map]; try assumption.
     + rewrite Hev.
-      rewrite (spec_code_R T p (t_interests (rt_code T)) name ms ml attrs HT). cbv zeta. cbn [proj_ev]. rewrite Ek. cbn [app].
+      rewrite (spec_code_R T p (t_interests (rt_code T)) name ms ml (exc_rows nexc exc) attrs HT). cbv zeta. cbn [proj_ev]. rewrite Ek. cbn [app].
       destruct kc as [cm|]; [|reflexivity].
-      rewrite (spec_code_R T p cm name ms ml attrs HT). cbv zeta.
+      rewrite (spec_code_R T p cm name ms ml (exc_rows nexc exc) attrs HT). cbv zeta.
       (* the full visitor's own projection is the identity *)
       pose proof (plains_R (rt_code T) [] (t_interests (rt_code T)) (proj_ev0 (rt_code T) (t_interests (rt_code T))) p attrs (tk_code T HT) (proj_ev0_like _ _) l_init l_init (R_init _ _ _)) as HR0.
       pose proof (loop_events_R _ _ _ _ _ (proj_ev0_like _ _) HR0) as Hid.
       rewrite <- Hid.
       rewrite (filter_all (keep_ct (rt_code T) (t_interests (rt_code T)))) by (intros x; apply (keep_full (rt_code T) [] x (tk_code T HT))).
       reflexivity.
-    + rewrite (spec_code_R T p (t_interests (rt_code T)) name ms ml attrs HT). cbv zeta. cbn [proj_ev]. rewrite Ek. exact Hev.
+    + rewrite (spec_code_R T p (t_interests (rt_code T)) name ms ml (exc_rows nexc exc) attrs HT). cbv zeta. cbn [proj_ev]. rewrite Ek. exact Hev.
   - split; [|discriminate].
     destruct (pool_utf8 p nidx) as [name|]; [|exact HR].
     fold (keep_ct ct m name). fold (keep_ct ct (t_interests ct) name). rewrite (keep_full ct except name Hct).
@@ -412,7 +412,7 @@ Proof.
   apply andb_true_intro. split; [|apply andb_true_intro; split].
   - apply forallb_forall. intros x Hx. apply H. apply in_rev. exact Hx.
   - unfold deferred_events. apply forallb_forall. intros x Hx. apply in_flat_map in Hx as (slot & _ & Hx).
-    destruct (slot_sources st slot); [destruct Hx|]. destruct Hx as [<-|[]]. reflexivity.
+    destruct (slot_sources ct st slot); [destruct Hx|]. destruct Hx as [<-|[]]. reflexivity.
   - destruct (t_flags_event ct); reflexivity.
 Qed.
 
